@@ -491,6 +491,6 @@ SUBCHECKS = [
     SubCheck("C17/deconv1d", run_deconv1d, strategy=deconv1d_cases, n={"quick": 500, "thorough": 10000}, shards={"quick": 4, "thorough": 16}),
     SubCheck("C17/deconv1d_legacy", run_legacy, strategy=legacy_cases, n={"quick": 100, "thorough": 1500}, shards={"quick": 2, "thorough": 4}),
     SubCheck("C17/deconv2d", run_deconv2d, strategy=deconv2d_cases, n={"quick": 200, "thorough": 4000}, shards={"quick": 8, "thorough": 16}),
-    SubCheck("C17/pde_problems", run_pde, strategy=pde_cases, n={"quick": 800, "thorough": 3000}, shards={"quick": 8, "thorough": 16}),
+    SubCheck("C17/pde_problems", run_pde, strategy=pde_cases, n={"quick": 800, "thorough": 12000}, shards={"quick": 8, "thorough": 16}),
     SubCheck("C17/abel_wang", run_misc, strategy=misc_cases, n={"quick": 200, "thorough": 3000}, shards={"quick": 2, "thorough": 8}),
 ]
